@@ -530,7 +530,8 @@ def c01_6(ctx, ss):
             dd = [d for d in flow.defs if isinstance(lps[0].iter, ast.Name) and d.name == lps[0].iter.id and d.kind == "assign" and isinstance(d.value, ast.SetComp)]
             for d in dd:
                 c2 = [(txt(flow.expand(e)), pol) for kind, e, pol in guards.path_conditions(ff.node, d.stmt) if kind == "if"]
-                okd = c2 in ([], [(f"self.number_of_decays != len(set({names_src}))", True)], [(f"len({names_src}) != len(set({names_src}))", True)])
+                okd = c2 in ([], [(f"self.number_of_decays == len(set({names_src}))", False)], [(f"len({names_src}) == len(set({names_src}))", False)],
+                             [(f"len(self._parsed_decays) == len(set({names_src}))", False)])
                 (ctx.holds if okd else ctx.violation)("C01.6", ckey(ff, None, "duplicates-computed"), where(ff, d.stmt),
                                                       "the duplicated names are computed whenever the number of tables exceeds the number of distinct mothers" if okd
                                                       else f"the duplicated names are only computed under {c2}")
@@ -607,4 +608,17 @@ def c01_8(ctx, ss):
     (ctx.holds if ok else ctx.violation)("C01.8", ckey(ff, None, "all-modes"), where(ff, ff.node),
                                          "list_decay_modes maps the daughters accessor over every decay line of the mother" if ok
                                          else f"list_decay_modes does not report every decay line in order: {why}")
+    # the mother name is taken verbatim unless PDG naming was asked for (default: EvtGen names, as written in the file)
+    conv = [st for st in pf.iter_stmts(ff.node.body) if isinstance(st, ast.Assign) and "PDG2EvtGenNameMap" in txt(st.value)]
+    okc = True
+    whyc = ""
+    for st in conv:
+        conds = [(txt(e), pol) for kind, e, pol in guards.path_conditions(ff.node, st) if kind == "if"]
+        if conds != [("pdg_name", True)]:
+            okc, whyc = False, f"the PDG-to-EvtGen conversion of the mother name runs under {conds}, not exactly when pdg_name is set"
+    d = ff.node.args.defaults
+    if not (len(d) == 1 and isinstance(d[0], ast.Constant) and d[0].value is False):
+        okc, whyc = False, "pdg_name no longer defaults to False: the mother name given as written in the file is looked up as a PDG name"
+    (ctx.holds if okc else ctx.violation)("C01.8", ckey(ff, None, "mother-verbatim"), where(ff, conv[0] if conv else ff.node),
+                                          "the mother name is used as given unless pdg_name is set" if okc else whyc)
     ctx.count("functions", 3)
